@@ -1455,23 +1455,28 @@ class Process(StateMachine, persistence.Savable, metaclass=ProcessStateMachineMe
         namespace = output_port.split(namespace_separator)
         port_name = namespace.pop()
 
-        if namespace:
-            port_namespace = cast(
-                ports.PortNamespace,
-                self.spec().outputs.get_port(namespace_separator.join(namespace), create_dynamically=True),
-            )
-        else:
-            port_namespace = self.spec().outputs
-
-        if not isinstance(port_namespace, ports.PortNamespace):
-            raise ValueError(f"Error validating output '{value}' for port '{output_port}': '{port_namespace.name}' is a port")
+        # Find the namespace of the port. A namespace that is not declared is covered by the dynamic properties of the last
+        # declared one: it is not added to the spec, which is shared by all instances of the class.
+        port_namespace = self.spec().outputs
+        declared = True
+        for sub_space in namespace:
+            if not sub_space:
+                raise ValueError(f"Error validating output '{value}' for port '{output_port}': empty namespace name")
+            if sub_space not in port_namespace:
+                if not port_namespace.dynamic:
+                    raise ValueError(f"port '{sub_space}' does not exist in port namespace '{port_namespace.name}'")
+                declared = False
+                break
+            port_namespace = cast(ports.PortNamespace, port_namespace[sub_space])
+            if not isinstance(port_namespace, ports.PortNamespace):
+                raise ValueError(f"Error validating output '{value}' for port '{output_port}': '{sub_space}' is a port")
 
         validation_error = None
-        try:
+        if declared and port_name in port_namespace:
             port = port_namespace[port_name]
             dynamic = False
             validation_error = port.validate(value)
-        except KeyError:
+        else:
             port = port_namespace
             dynamic = True
             validation_error = port.validate_dynamic_ports({port_name: value})
